@@ -24,12 +24,39 @@ from .ops import Unsupported
 Z3_RLIMIT = int(os.environ.get('PYVC_Z3_RLIMIT', '6000000'))
 Z3_TIMEOUT_MS = int(os.environ.get('PYVC_Z3_TIMEOUT_MS', '900000'))
 CVC5_RLIMIT = int(os.environ.get('PYVC_CVC5_RLIMIT', '400000'))
-CVC5_TIMEOUT_MS = int(os.environ.get('PYVC_CVC5_TIMEOUT_MS', '300000'))
+CVC5_TIMEOUT_MS = int(os.environ.get('PYVC_CVC5_TIMEOUT_MS', '900000'))
 # Solver results are memoised by the SHA-256 of the exact query text (+ solver versions and budgets) under .cache/smt.
 # The verification conditions themselves are regenerated from $REPO's working tree on every run; a changed body gives a
-# different query text and is solved afresh.  The cache directory is not committed (a fresh restore starts empty).
-CACHE_DIR = os.path.join(os.path.dirname(os.path.dirname(os.path.abspath(__file__))), '.cache', 'smt')
+# different query text and is solved afresh.  .cache/smt is the run-time store (not committed); memo/smt_memo.json.gz is a
+# committed read-only seed with the verdicts of the obligations of the unchanged tree (tools/mkmemo.py), so that the quick tier
+# of a fresh restore re-solves only what differs.  The thorough tier (and PYVC_NO_CACHE=1) ignores both and solves everything.
+_ROOT = os.path.dirname(os.path.dirname(os.path.abspath(__file__)))
+CACHE_DIR = os.path.join(_ROOT, '.cache', 'smt')
+SEED_PATH = os.path.join(_ROOT, 'memo', 'smt_memo.json.gz')
+USED_LOG = os.path.join(_ROOT, '.cache', 'used_keys.log')
 USE_CACHE = os.environ.get('PYVC_NO_CACHE', '') == ''
+_SEED = None
+
+
+def _seed():
+    global _SEED
+    if _SEED is None:
+        try:
+            import gzip
+            with gzip.open(SEED_PATH, 'rt') as fh:
+                _SEED = json.load(fh)
+        except Exception:  # noqa
+            _SEED = {}
+    return _SEED
+
+
+def _log_used(key):
+    if os.environ.get('PYVC_LOG_USED'):
+        try:
+            with open(USED_LOG, 'a') as fh:
+                fh.write(key + '\n')
+        except Exception:  # noqa
+            pass
 CVC5_BIN = '/usr/bin/cvc5'
 
 _MODULE_CACHE = {}
@@ -64,6 +91,7 @@ def _solve_one(job):
     if not USE_CACHE:
         return _solve_one_uncached(job)
     key = _cache_key(smt2, expect)
+    _log_used(key)
     path = os.path.join(CACHE_DIR, key[:2], key + '.json')
     try:
         with open(path) as fh:
@@ -71,6 +99,9 @@ def _solve_one(job):
         return idx, d['verdict'], d['backend'] + '+memo', 0.0, d.get('reason', '')
     except Exception:  # noqa
         pass
+    d = _seed().get(key)
+    if d is not None:
+        return idx, d[0], d[1] + '+memo', 0.0, ''
     out = _solve_one_uncached(job)
     if out[1] in ('sat', 'unsat'):
         try:
@@ -134,33 +165,75 @@ def _solve_one_uncached(job):
     return idx, verdict, backend, time.time() - t0, reason
 
 
-def discharge(obligations, nproc=None):
+_OBS = []          # obligations of the current discharge() call, inherited by the forked workers
+
+
+def _weakened_for(ob):
+    out = []
+    if ob.expect == 'unsat' and len(ob.hyps) > 40:
+        try:
+            for k, share in ((8, 0.04), (12, 0.05), (16, 0.06), (25, 0.08), (45, 0.12)):
+                if k < len(ob.hyps):
+                    out.append(('tail%d' % k, ob.smt2(tail=k), share))
+            out.append(('filtered', ob.smt2(filtered=True), 0.5))
+        except Exception:  # noqa
+            pass
+    return out
+
+
+def _solve_job(job):
+    """Worker: builds the weakened variants of its obligation itself (from the inherited objects), then solves."""
+    idx, smt2, expect = job
+    return _solve_one((idx, smt2, expect, _weakened_for(_OBS[idx])))
+
+
+def _memo_lookup(smt2, expect):
+    key = _cache_key(smt2, expect)
+    _log_used(key)
+    path = os.path.join(CACHE_DIR, key[:2], key + '.json')
+    try:
+        with open(path) as fh:
+            d = json.load(fh)
+        return {'verdict': d['verdict'], 'backend': d['backend'] + '+memo', 'secs': 0.0, 'reason': d.get('reason', '')}
+    except Exception:  # noqa
+        pass
+    d = _seed().get(key)
+    if d is not None:
+        return {'verdict': d[0], 'backend': d[1] + '+memo', 'secs': 0.0, 'reason': ''}
+    return None
+
+
+def discharge(obligations, nproc=None, use_cache=True):
+    global USE_CACHE, _OBS
+    USE_CACHE = USE_CACHE and use_cache          # inherited by the forked workers
+    _seed()
+    results = [None] * len(obligations)
     jobs = []
     for i, ob in enumerate(obligations):
-        weakened = []
-        if ob.expect == 'unsat' and len(ob.hyps) > 40:
-            try:
-                for k, share in ((8, 0.04), (12, 0.05), (16, 0.06), (25, 0.08), (45, 0.12)):
-                    if k < len(ob.hyps):
-                        weakened.append(('tail%d' % k, ob.smt2(tail=k), share))
-                weakened.append(('filtered', ob.smt2(filtered=True), 0.5))
-            except Exception:  # noqa
-                pass
-        jobs.append((i, ob.smt2(), ob.expect, weakened))
-    nproc = nproc or min(16, os.cpu_count() or 4)
-    results = [None] * len(jobs)
+        text = ob.smt2()
+        if USE_CACHE:
+            hit = _memo_lookup(text, ob.expect)
+            if hit is not None:
+                results[i] = hit
+                continue
+        jobs.append((i, text, ob.expect))
     if not jobs:
         return results
+    nproc = nproc or min(16, os.cpu_count() or 4)
+    _OBS = obligations
     ctx = mp.get_context('fork')
     with ctx.Pool(min(nproc, len(jobs))) as pool:
-        for idx, verdict, backend, secs, reason in pool.imap_unordered(_solve_one, jobs, chunksize=1):
+        for idx, verdict, backend, secs, reason in pool.imap_unordered(_solve_job, jobs, chunksize=1):
             results[idx] = {'verdict': verdict, 'backend': backend, 'secs': secs, 'reason': reason}
+    _OBS = []
     return results
 
 
 # ------------------------------------------------------------------------------------------------ verification
 def verify_contract(con, repo, models, spec_funcs):
     """Generate the obligations of one contract from the current source.  Returns a dict."""
+    from . import types as _types
+    _types._COUNTER[0] = 0        # names are per contract: the query text (and its memo key) does not depend on what ran before
     load = module_loader(repo)
     info = {'target': con.target, 'variant': con.variant, 'status': 'ok', 'obligations': [], 'detail': '',
             'dropped': [], 'assumptions': [], 'callees': [], 'trusted_callees': []}
@@ -222,7 +295,7 @@ def verify_targets(targets, repo, tier='quick', property_id=None, native=True):
                               'detail': traceback.format_exc()[-1500:], 'dropped': [], 'assumptions': [], 'callees': [], 'trusted_callees': []})
     all_obs = [ob for inf in infos for ob in inf['obligations']]
     t_gen = time.time() - t0
-    results = discharge(all_obs)
+    results = discharge(all_obs, use_cache=(tier != 'thorough'))
     from . import monitor
     witnesses = {}
     for inf in infos:
